@@ -186,8 +186,7 @@ var inflightFn atomic.Value // func() string
 func safeStep(in Inst, o Op, props []string) (v *Viol) {
 	defer func() {
 		if r := recover(); r != nil {
-			v = &Viol{Props: append(append([]string{}, props...), "C17"), Class: "panic",
-				Msg: fmt.Sprintf("panic in %s: %v\n%s", o, r, trimStack(debug.Stack()))}
+			v = panicViol(r, props, o.String())
 		}
 	}()
 	return in.Step(o)
@@ -196,11 +195,53 @@ func safeStep(in Inst, o Op, props []string) (v *Viol) {
 func safeCheck(f func() *Viol, props []string, what string) (v *Viol) {
 	defer func() {
 		if r := recover(); r != nil {
-			v = &Viol{Props: append(append([]string{}, props...), "C17"), Class: "panic",
-				Msg: fmt.Sprintf("panic in %s: %v\n%s", what, r, trimStack(debug.Stack()))}
+			v = panicViol(r, props, what)
 		}
 	}()
 	return f()
+}
+
+// panicViol turns a recovered panic into a violation — unless the panicking
+// function is the checker's own code (then it is a tool error and is re-raised:
+// a harness bug must never be reported as a defect of the library).
+func panicViol(r any, props []string, what string) *Viol {
+	st := debug.Stack()
+	if s, ok := r.(string); ok && strings.HasPrefix(s, "tool error") {
+		panic(r)
+	}
+	if !panicOriginInLibrary(st) {
+		panic(fmt.Sprintf("tool error: panic raised by the checker's own code during %s: %v\n%s", what, r, st))
+	}
+	return &Viol{Props: append(append([]string{}, props...), "C17"), Class: "panic",
+		Msg: fmt.Sprintf("panic in %s: %v\n%s", what, r, trimStack(st))}
+}
+
+// panicOriginInLibrary: the first non-runtime frame below the panic call belongs to
+// the library under test (or to the standard library called by it), not to package main.
+func panicOriginInLibrary(stack []byte) bool {
+	lines := strings.Split(string(stack), "\n")
+	i := 0
+	for i < len(lines) && !strings.HasPrefix(lines[i], "panic(") {
+		i++
+	}
+	// frames come in pairs: function line, then file line
+	for i += 2; i+1 < len(lines); i += 2 {
+		fn := lines[i]
+		switch {
+		case strings.HasPrefix(fn, "runtime."), strings.HasPrefix(fn, "runtime/"), strings.HasPrefix(fn, "panic("):
+			continue
+		case strings.HasPrefix(fn, "main."):
+			return false
+		default:
+			// library frame, or std code: decide by who called it — walk on until main or gods
+			if strings.Contains(fn, "emirpasic/gods") {
+				return true
+			}
+			// std frame (encoding/json, slices, reflect, ...): continue to its caller
+			continue
+		}
+	}
+	return false
 }
 
 func trimStack(b []byte) string {
